@@ -546,16 +546,25 @@ int main(int argc, char** argv) {
         }
         /* ---- unit entry points (internal headers) ---- */
         else if (!strcmp(op, "mul2")) {
+#ifndef DRV_NO_GF
             unsigned x = (unsigned)NUM(1);
             printf("> mul2 %u\n< v=%u\n", x, (unsigned)gf_elem_mul2(x));
+#else
+            printf("> skip\n"); continue;   /* this internal interface is not reachable in the current tree */
+#endif
         }
         else if (!strcmp(op, "eval")) {
+#ifndef DRV_NO_GF
             gf_poly p;
             printf("> eval");
             for (int i = 0; i < POLYSEED_NUM_WORDS; ++i) { p.coeff[i] = (gf_elem)NUM(1 + i); printf(" %u", (unsigned)p.coeff[i]); }
             printf("\n< v=%u check=%d\n", (unsigned)gf_poly_eval(&p), gf_poly_check(&p) ? 1 : 0);
+#else
+            printf("> skip\n"); continue;   /* this internal interface is not reachable in the current tree */
+#endif
         }
         else if (!strcmp(op, "pack")) {
+#ifndef DRV_NO_PACK
             polyseed_data d; gf_poly p;
             memset(&d, 0, sizeof d); memset(&p, 0xEE, sizeof p);
             d.birthday = (unsigned)NUM(1); d.features = (unsigned)NUM(2);
@@ -567,8 +576,12 @@ int main(int argc, char** argv) {
             printf("<");
             for (int i = 1; i < POLYSEED_NUM_WORDS; ++i) printf(" %u", (unsigned)p.coeff[i]);
             printf("\n");
+#else
+            printf("> skip\n"); continue;   /* this internal interface is not reachable in the current tree */
+#endif
         }
         else if (!strcmp(op, "unpack")) {
+#ifndef DRV_NO_PACK
             polyseed_data d; gf_poly p;
             memset(&d, 0xEE, sizeof d);
             printf("> unpack");
@@ -577,8 +590,12 @@ int main(int argc, char** argv) {
             polyseed_poly_to_data(&p, &d);
             printf("< b=%u f=%u secret=", d.birthday, d.features); puthex(d.secret, SECRET_BUFFER_SIZE);
             printf(" chk=%u\n", (unsigned)d.checksum);
+#else
+            printf("> skip\n"); continue;   /* this internal interface is not reachable in the current tree */
+#endif
         }
         else if (!strcmp(op, "dstore")) {
+#ifndef DRV_NO_STORE
             polyseed_data d; memset(&d, 0, sizeof d);
             d.birthday = (unsigned)NUM(1); d.features = (unsigned)NUM(2);
             size_t n = unhex(ARG(3), hbuf, sizeof hbuf);
@@ -590,8 +607,12 @@ int main(int argc, char** argv) {
             polyseed_data_store(&d, g.ptr);
             printf("< buf="); puthex(g.ptr, POLYSEED_SIZE); printf("\n");
             gfree(g);
+#else
+            printf("> skip\n"); continue;   /* this internal interface is not reachable in the current tree */
+#endif
         }
         else if (!strcmp(op, "dload")) {
+#ifndef DRV_NO_STORE
             size_t n = unhex(ARG(1), hbuf, sizeof hbuf);
             if (n != POLYSEED_SIZE) die("dload needs 32 bytes");
             printf("> dload "); puthex(hbuf, n); printf("\n");
@@ -603,20 +624,36 @@ int main(int argc, char** argv) {
                 printf(" chk=%u\n", (unsigned)d.checksum);
             } else printf("< st=%d\n", (int)st);
             gfree(g);
+#else
+            printf("> skip\n"); continue;   /* this internal interface is not reachable in the current tree */
+#endif
         }
         else if (!strcmp(op, "bdayenc")) {
+#ifndef DRV_NO_BDAY
             uint64_t t = NUM(1);
             printf("> bdayenc %llu\n< v=%u\n", (unsigned long long)t, birthday_encode(t));
+#else
+            printf("> skip\n"); continue;   /* this internal interface is not reachable in the current tree */
+#endif
         }
         else if (!strcmp(op, "bdaydec")) {
+#ifndef DRV_NO_BDAY
             unsigned b = (unsigned)NUM(1);
             printf("> bdaydec %u\n< v=%llu\n", b, (unsigned long long)birthday_decode(b));
+#else
+            printf("> skip\n"); continue;   /* this internal interface is not reachable in the current tree */
+#endif
         }
         else if (!strcmp(op, "supported")) {
+#ifndef DRV_NO_FEAT
             unsigned f = (unsigned)NUM(1);
             printf("> supported %u\n< v=%d\n", f, polyseed_features_supported(f) ? 1 : 0);
+#else
+            printf("> skip\n"); continue;   /* this internal interface is not reachable in the current tree */
+#endif
         }
         else if (!strcmp(op, "find") || !strcmp(op, "findx")) {
+#ifndef DRV_NO_LANG
             bool x = op[4] == 'x';
             int li = (int)NUM(1);
             int flags = x ? (int)NUM(2) : -1;
@@ -636,8 +673,12 @@ int main(int argc, char** argv) {
             int v = polyseed_lang_find_word(l, (char*)g.ptr);
             printf("< v=%d\n", v);
             gfree(g);
+#else
+            printf("> skip\n"); continue;   /* this internal interface is not reachable in the current tree */
+#endif
         }
         else if (!strcmp(op, "pdecode") || !strcmp(op, "pdecodex")) {
+#ifndef DRV_NO_LANG
             bool x = op[7] == 'x';
             int li = x ? (int)NUM(1) : -1;
             int a0 = x ? 2 : 1;
@@ -652,7 +693,8 @@ int main(int argc, char** argv) {
                 printf(" "); puthex(hbuf, n);
             }
             printf("\n");
-            uint_fast16_t idx[POLYSEED_NUM_WORDS];
+            /* the element type of gf_poly.coeff: what polyseed.c itself passes as idx_out */
+            gf_elem idx[POLYSEED_NUM_WORDS];
             for (int i = 0; i < POLYSEED_NUM_WORDS; ++i) idx[i] = 9999;
             const polyseed_lang* lo = (const polyseed_lang*)(uintptr_t)0x1A46;
             polyseed_status st = x ? polyseed_phrase_decode_explicit(ph, polyseed_get_lang(li), idx)
@@ -662,6 +704,9 @@ int main(int argc, char** argv) {
             if (st == POLYSEED_OK) { printf(" idx="); for (int i = 0; i < POLYSEED_NUM_WORDS; ++i) printf("%s%u", i ? "," : "", (unsigned)idx[i]); }
             printf("\n");
             for (int i = 0; i < POLYSEED_NUM_WORDS; ++i) gfree(gs[i]);
+#else
+            printf("> skip\n"); continue;   /* this internal interface is not reachable in the current tree */
+#endif
         }
         else die("unknown op");
         if (g_nwatch) watch_compare(opname);
